@@ -350,7 +350,7 @@ fn depth(tier: &str) -> usize {
     if tier == "quick" {
         8
     } else {
-        9
+        10
     }
 }
 
